@@ -9,12 +9,15 @@ pub mod c08;
 pub mod c11;
 pub mod c12;
 pub mod c13;
+pub mod c14;
+pub mod c15;
+pub mod c20;
 pub mod printing;
 
 use crate::framework::Ctx;
 use serde_json::Value as J;
 
-pub const ALL: &[&str] = &["C01", "C02", "C03", "C04", "C05", "C06", "C07", "C08", "C11", "C12", "C13"];
+pub const ALL: &[&str] = &["C01", "C02", "C03", "C04", "C05", "C06", "C07", "C08", "C11", "C12", "C13", "C14", "C15", "C20"];
 
 pub fn run(ctx: &mut Ctx) {
 	match ctx.prop {
@@ -24,6 +27,9 @@ pub fn run(ctx: &mut Ctx) {
 		"C04" => c04::run(ctx),
 		"C08" => c08::run(ctx),
 		"C13" => c13::run(ctx),
+		"C14" => c14::run(ctx),
+		"C15" => c15::run(ctx),
+		"C20" => c20::run(ctx),
 		"C05" => c05::run(ctx),
 		"C06" => c06::run(ctx),
 		"C07" => c07::run(ctx),
@@ -41,6 +47,9 @@ pub fn replay(prop: &str, family: &str, case: &J) -> Result<(), String> {
 		"C04" => c04::replay(family, case),
 		"C08" => c08::replay(family, case),
 		"C13" => c13::replay(family, case),
+		"C14" => c14::replay(family, case),
+		"C15" => c15::replay(family, case),
+		"C20" => c20::replay(family, case),
 		"C05" => c05::replay(family, case),
 		"C06" => c06::replay(family, case),
 		"C07" => c07::replay(family, case),
